@@ -803,14 +803,83 @@ def _history_load(rhs, hint="p_msgs"):
     return None
 
 
-def _derefs_param(g, k):
+def _entry_paths(f, node, did, loads, initial=None):
+    """Walk every path of f to `node` and follow what is known about the history element held by variable `did`:
+    returns (relevant, bad, complete, n_paths).  `initial` = "hist" when the variable is a parameter that receives an element."""
+    from .rules_index import ordered_paths
+    paths, complete = ordered_paths(f, node, revisit=True)
+    bad = None
+    relevant = False
+    for seq in paths:
+        src = initial          # None: not a history element; "hist"; "last"
+        m1 = m2 = m3 = None
+        infeasible = False
+        for ev in seq:
+            if ev[0] == "e":
+                n0 = ev[1]
+                tgt = None
+                if n0.k == "VarDecl" and n0.did == did:
+                    tgt = n0
+                elif n0.k == "BinaryOperator" and n0.op == "=" and X.strip(n0.children[0]).k == "DeclRefExpr" and X.strip(n0.children[0]).did == did:
+                    tgt = n0
+                if tgt is not None:
+                    m1 = m2 = m3 = None
+                    if tgt.id in loads:
+                        src = "last" if _is_last_entry(f, loads[tgt.id][1], tgt) else "hist"
+                    else:
+                        src = None
+                continue
+            core, t = ev[1], ev[2]
+            tt = None
+            cc = X.strip(core)
+            if cc.k == "BinaryOperator" and cc.op == "&" and X.const_int(cc.children[1]) in (1, 2, 3):
+                rv = typestate.root_var(cc.children[0])
+                if rv is not None and rv.did == did:
+                    tt = X.const_int(cc.children[1])
+            prev = {1: m1, 2: m2, 3: m3}.get(tt)
+            if tt is not None and prev is not None and prev != t:
+                infeasible = True
+            if tt == 3 and t is False and (m1 or m2):
+                infeasible = True
+            if tt in (1, 2) and t and m3 is False:
+                infeasible = True
+            if tt == 1:
+                m1 = t
+            elif tt == 2:
+                m2 = t
+            elif tt == 3:
+                m3 = t
+        if infeasible or src is None:
+            continue
+        relevant = True
+        if src == "last":
+            continue
+        if not ((m3 is False) or (m1 is False and m2 is False)):
+            bad = "tests on the path since the element was loaded: &1=%s &2=%s &3=%s" % (m1, m2, m3)
+    return relevant, bad, complete, len(paths)
+
+
+def _derefs_param(g, k, _memo={}):
+    """g dereferences its k-th parameter on some path on which g itself has not tested the tag bits clear."""
+    key = (g.name, g.config, k)
+    if key in _memo:
+        return _memo[key]
+    _memo[key] = False
     p = g.params[k]
+    out = False
     for n in g.walk():
         if n.k == "MemberExpr" and n.arrow:
             b = X.strip(n.children[0])
             if b.k == "DeclRefExpr" and b.did == p["did"] and not Q.unevaluated(n):
-                return True
-    return False
+                if not g.d.get("cfg"):
+                    out = True
+                    break
+                rel, bad, complete, _ = _entry_paths(g, n, p["did"], {}, "hist")
+                if bad or not complete:
+                    out = True
+                    break
+    _memo[key] = out
+    return out
 
 
 def check_entry_derefs(ck, P, rid, floor=10, only=None):
@@ -860,57 +929,13 @@ def check_entry_derefs(ck, P, rid, floor=10, only=None):
                     b = X.strip(a)
                     if b.k == "DeclRefExpr" and b.did in dids and k < len(g.params) and _derefs_param(g, k):
                         sites.append((n, b, "argument of %s" % n.callee))
+        seen_inst = {}
         for node, var, what in sites:
             inst = "entry-deref@%s:%s:%s" % (f.name, var.name, what)
-            paths, complete = ordered_paths(f, node, revisit=True)
-            bad = None
-            relevant = False
-            for seq in paths:
-                src = None          # None: not a history element; "hist"; "last"
-                m1 = m2 = m3 = None
-                infeasible = False
-                for ev in seq:
-                    if ev[0] == "e":
-                        n0 = ev[1]
-                        tgt = None
-                        if n0.k == "VarDecl" and n0.did == var.did:
-                            tgt = n0
-                        elif n0.k == "BinaryOperator" and n0.op == "=" and X.strip(n0.children[0]).k == "DeclRefExpr" and X.strip(n0.children[0]).did == var.did:
-                            tgt = n0
-                        if tgt is not None:
-                            m1 = m2 = m3 = None
-                            if tgt.id in loads:
-                                src = "last" if _is_last_entry(f, loads[tgt.id][1], tgt) else "hist"
-                            else:
-                                src = None
-                        continue
-                    core, t = ev[1], ev[2]
-                    tt = None
-                    cc = X.strip(core)
-                    if cc.k == "BinaryOperator" and cc.op == "&" and X.const_int(cc.children[1]) in (1, 2, 3):
-                        rv = typestate.root_var(cc.children[0])
-                        if rv is not None and rv.did == var.did:
-                            tt = X.const_int(cc.children[1])
-                    prev = {1: m1, 2: m2, 3: m3}.get(tt)
-                    if tt is not None and prev is not None and prev != t:
-                        infeasible = True
-                    if tt == 3 and t is False and (m1 or m2):
-                        infeasible = True
-                    if tt in (1, 2) and t and m3 is False:
-                        infeasible = True
-                    if tt == 1:
-                        m1 = t
-                    elif tt == 2:
-                        m2 = t
-                    elif tt == 3:
-                        m3 = t
-                if infeasible or src is None:
-                    continue
-                relevant = True
-                if src == "last":
-                    continue
-                if not ((m3 is False) or (m1 is False and m2 is False)):
-                    bad = "tests on the path since the element was loaded: &1=%s &2=%s &3=%s" % (m1, m2, m3)
+            seen_inst[inst] = seen_inst.get(inst, 0) + 1
+            if seen_inst[inst] > 1:
+                inst += "#%d" % seen_inst[inst]
+            relevant, bad, complete, n_paths = _entry_paths(f, node, var.did, loads)
             if not relevant:
                 continue
             n_sites += 1
@@ -919,7 +944,7 @@ def check_entry_derefs(ck, P, rid, floor=10, only=None):
             elif not complete:
                 ck.inconclusive(rid, inst, node.where, "path bound reached", cfg)
             else:
-                ck.holds(rid, inst, node.where, "reached only with an element proven untagged, or with the last element of the history (%d paths)" % len(paths), cfg)
+                ck.holds(rid, inst, node.where, "reached only with an element proven untagged, or with the last element of the history (%d paths)" % n_paths, cfg)
     ck.expect(rid, n_sites, floor, "dereferences of history elements")
 
 
